@@ -6,6 +6,7 @@
 #include <string>
 #include <cmath>
 #include <climits>
+#include <cerrno>
 
 const char* pbt_property = "C07";
 const char* pbt_part = "variant";
@@ -130,9 +131,14 @@ void conv(Ctx& ctx, const Variant& v, const MV& m, const std::string& path) {
       else if (m.s == "true") { if (!v.toBool()) fail(ctx, "mismatch:coercion", path + ": 'true' toBool()"); }
       else if (m.s == "false") { if (v.toBool()) fail(ctx, "mismatch:coercion", path + ": 'false' toBool()"); }
       // canonical decimal integer text
-      bool neg = !m.s.empty() && m.s[0] == '-'; size_t p0 = neg ? 1 : 0; bool digits = m.s.size() > p0 && m.s.size() - p0 <= 18;
+      bool neg = !m.s.empty() && m.s[0] == '-'; size_t p0 = neg ? 1 : 0; bool digits = m.s.size() > p0 && m.s.size() - p0 <= 20;
       for (size_t q = p0; q < m.s.size(); ++q) if (m.s[q] < '0' || m.s[q] > '9') digits = false;
-      if (digits && (m.s[p0] != '0' || m.s.size() == p0 + 1) && !(neg && m.s == "-0")) { long long val = atoll(m.s.c_str()); chkInts(val < 0, (unsigned long long)val, val); if (v.toDouble() != (double)val) fail(ctx, "mismatch:coercion", path + ": decimal string toDouble()"); }
+      if (digits && (m.s[p0] != '0' || m.s.size() == p0 + 1) && !(neg && m.s == "-0")) {
+        // every decimal text of a value that some 64 bit alternative holds (chkInts compares only the accessors whose type holds it)
+        errno = 0;
+        if (neg) { long long val = strtoll(m.s.c_str(), nullptr, 10); if (!errno) { chkInts(val < 0, (unsigned long long)val, val); if (v.toDouble() != (double)val) fail(ctx, "mismatch:coercion", path + ": decimal string toDouble()"); } }
+        else { unsigned long long mag = strtoull(m.s.c_str(), nullptr, 10); if (!errno) { if (mag > (unsigned long long)LLONG_MAX) ctx.label("decimal_string>=2^63"); chkInts(false, mag, (long long)mag); if (v.toDouble() != (double)mag) fail(ctx, "mismatch:coercion", path + ": decimal string toDouble()"); } }
+      }
       break;
     }
     default:
@@ -154,7 +160,7 @@ void pbt_generate(Rng& r, int size, Case& c) {
     int o = r.weighted(w, N);
     std::string d;
     std::string nm = names[o];
-    if (nm == "str" || nm == "mstr" || nm == "mnested") { static const char* ss[] = {"", "true", "false", "0", "42", "-7", "abc", "4294967296", "x y", "12ab"}; d = r.chance(60) ? ss[r.below(10)] : std::string(1 + r.below(5), (char)('a' + r.below(26))); }
+    if (nm == "str" || nm == "mstr" || nm == "mnested") { static const char* ss[] = {"", "true", "false", "0", "42", "-7", "abc", "4294967296", "x y", "12ab", "9223372036854775807", "9223372036854775808", "18446744073709551615", "-9223372036854775808"}; d = r.chance(60) ? ss[r.below(14)] : std::string(1 + r.below(5), (char)('a' + r.below(26))); }
     c.add(names[o], (long)r.below(NV), (long)r.below(NV), (long)r.below(64), (long)r.below(1000), d);
   }
 }
